@@ -258,10 +258,11 @@ def sub_tuplets(ctx, shard, n):
         if x not in vs:
             vs.append(x)
     cases = [[v, p, q] for v in vs for (p, q) in sorted(HELPERS)] + [[b, p, q] for b in V.BASES for (p, q) in sorted(HELPERS)]
-    ctx.enumerate("tuplet", check_tuplet, cases)
+    if shard == 0:
+        ctx.enumerate("tuplet", check_tuplet, cases)
     ratio = st.sampled_from(sorted(HELPERS)) | st.tuples(st.integers(1, 16), st.integers(1, 16))
     v = st.sampled_from(vs) | st.floats(1.0 / 16, 1024.0) | st.integers(1, 256)
-    ctx.given("tuplet", check_tuplet, st.tuples(v, ratio).map(lambda t: [t[0], t[1][0], t[1][1]]), 800 if ctx.quick else 20000)
+    ctx.given("tuplet", check_tuplet, st.tuples(v, ratio).map(lambda t: [t[0], t[1][0], t[1][1]]), 800 if ctx.quick else 5000)
 
 
 COUNTS = list(range(-10, 201))
@@ -305,7 +306,7 @@ SUBS = [
     Sub("built", sub_built),
     Sub("near", sub_near, quick=2, thorough=8),
     Sub("pairs", sub_pairs, quick=2, thorough=8),
-    Sub("tuplets", sub_tuplets),
+    Sub("tuplets", sub_tuplets, quick=1, thorough=4),
     Sub("meters_enum", sub_meters_enum, quick=4, thorough=16),
     Sub("meters_random", sub_meters_random, quick=1, thorough=8),
 ]
